@@ -15,7 +15,8 @@ Local Open Scope Z_scope.
 Inductive osub : Type :=
 | OS1 (d : Z) (cov : list Z)
 | OS2 (m : list (Z * Z))
-| OLig (sets : list (Z * list (list Z * Z))).
+| OLig (sets : list (Z * list (list Z * Z)))
+| OMulti (alt : bool) (m : list (Z * list Z)).
 
 Record obs : Type := mkObs {
   o_sel : list Z;
@@ -82,6 +83,7 @@ Section Obs.
     | Single2 m => OS2 (zsort fst (map (fun p => (old (fst p), old (snd p))) m))
     | Lig sets =>
         OLig (zsort fst (map (fun s => (old (fst s), map (fun l => (map old (fst l), old (snd l))) (snd s))) sets))
+    | Multi a m => OMulti a (zsort fst (map (fun p => (old (fst p), map old (snd p))) m))
     end.
 
   Definition okern (k : kernsub) : list (Z * Z * Z) :=
